@@ -389,6 +389,26 @@ func workerServer(c *fw.Ctx) (baseURL, servedDir string, ok bool) {
 	return u, dir, true
 }
 
+// workerServer1P is a second per-worker server restricted to one scheduler thread (GOMAXPROCS=1, the
+// one-CPU deployment): handlers interleave only at blocking points, which exposes state shared between requests.
+func workerServer1P(c *fw.Ctx) (baseURL, servedDir string, ok bool) {
+	if v, has := c.Env.State["server1p_url"]; has {
+		return v.(string), c.Env.State["server1p_dir"].(string), true
+	}
+	dir := filepath.Join(c.Env.Tmp, "served1p")
+	mustMkdir(dir)
+	cmd, u, out, err := startServer(cliBin(c), dir, append(os.Environ(), "GOMAXPROCS=1"))
+	if err != nil {
+		c.Inconclusive("cannot start whispertool server: " + err.Error())
+		return "", "", false
+	}
+	c.Env.State["server1p_url"] = u
+	c.Env.State["server1p_dir"] = dir
+	c.Env.State["server1p_cmd"] = cmd
+	c.Env.State["server1p_out"] = out
+	return u, dir, true
+}
+
 // serverOutput returns what the worker's server printed so far (for panic scanning).
 func serverOutput(c *fw.Ctx) string {
 	if v, has := c.Env.State["server_out"]; has {
